@@ -7,6 +7,8 @@
      3 cap rate now nmsgs {rcode q r <ck>}*  | res*          should_ratelimit on a fresh limiter, one source
          res 0 answered, 1 dropped, 2 panic
      4 <ck>                                  | status        validate_cookie_keys: 0 missing 1 bad 2 good 3 panic
+     5 <cur1> <prev1> <cur2> <prev2>         | s0 sff sg     the keys two fresh instances start with; forged cookies
+     6 cap rate now nops {k v}*              | res*          the limiter with time passing (timestamps shifted)
    <ck> = 0  |  1 cur prev ikey cp ci lp li rp ri mut   (each but mut a length-prefixed octet string)
          the query carries client cookie cp and the server cookie that was issued under key
          ikey for (client cookie ci, server address li, client address ri), damaged if mut <> 0
@@ -292,11 +294,87 @@ Definition check_ratelimit (ts : list N) : list N :=
   | _ => v_bad
   end.
 
+(* ---- kind 5: the keys a freshly started service begins with ----------------
+     5 <cur1> <prev1> <cur2> <prev2> s0 sff sg
+   two fresh instances' (current, previous); s0/sff/sg: validate_cookie_keys under instance 1's keys
+   of a cookie forged under the all-zero key, the all-0xff key and the fixed key 1..8 *)
+Definition weak_key (k : list N) : bool :=
+  bytes_eqb k (repeatN 0 8) || bytes_eqb k (repeatN 255 8) || bytes_eqb k [1; 2; 3; 4; 5; 6; 7; 8].
+
+Definition check_fresh_keys (ts : list N) : list N :=
+  match tok_bytes ts with Some (c1, r) =>
+  match tok_bytes r with Some (p1, r) =>
+  match tok_bytes r with Some (c2, r) =>
+  match tok_bytes r with Some (p2, [s0; sff; sg]) =>
+    if weak_key c1 || weak_key p1 || weak_key c2 || weak_key p2
+       || bytes_eqb c1 p1 || bytes_eqb c2 p2
+       || bytes_eqb c1 c2 || bytes_eqb c1 p2 || bytes_eqb p1 c2 || bytes_eqb p1 p2
+       || (s0 =? 2) || (sff =? 2) || (sg =? 2)
+       || negb ((lenN c1 =? 8) && (lenN p1 =? 8))
+    then v_viol 7 else v_ok 10
+  | _ => v_bad end | None => v_bad end | None => v_bad end | None => v_bad end.
+
+(* ---- kind 6: the limiter with time passing (bucket timestamps shifted by the hook) ----
+     6 cap rate now nops {k v}* res*     k = 0: a request of v tokens; k = 1: v seconds pass *)
+Fixpoint tok_pairs (n : nat) (ts : list N) : option (list (N * N) * list N) :=
+  match n with
+  | O => Some ([], ts)
+  | S k => match ts with
+           | a :: b :: r => match tok_pairs k r with Some (l, r2) => Some ((a, b) :: l, r2) | None => None end
+           | _ => None
+           end
+  end.
+
+Fixpoint shifted_run (cap rate : N) (st : N * N) (now : N) (ops : list (N * N)) : list N :=
+  match ops with
+  | [] => []
+  | (0, n) :: r =>
+    match lim_check cap rate st now (cast 32 n) with
+    | Ok (b, st') => (if b then 1 else 0) :: shifted_run cap rate st' now r
+    | _ => 2 :: shifted_run cap rate st now r
+    end
+  | (_, d) :: r => 0 :: shifted_run cap rate (fst st - d, snd st - d) now r
+  end.
+
+(* on the implementation's answers: [idle] = seconds passed since the last grant (a fresh limiter
+   counts as idle for ever), [granted]/[passed] = totals *)
+Fixpoint shifted_ok (cap rate idle granted passed : N) (ops : list (N * N)) (res : list N) : N :=
+  match ops, res with
+  | (0, n) :: r, rs :: res' =>
+    if (cap / rate <=? idle) && (n <=? rate * (cap / rate)) && negb (rs =? 1) then 2
+    else
+      let granted' := if rs =? 1 then granted + n else granted in
+      if 2 * cap + 2 * (rate * passed) <? granted' then 1
+      else shifted_ok cap rate (if rs =? 1 then 0 else idle) granted' passed r res'
+  | (_, d) :: r, _ :: res' => shifted_ok cap rate (idle + d) granted (passed + d) r res'
+  | _, _ => 0
+  end.
+
+Definition check_shifted (ts : list N) : list N :=
+  match ts with
+  | cap :: rate :: now :: nops :: r =>
+    if (rate =? 0) || negb (2 * nops <=? lenN r) then v_bad else
+    match tok_pairs (N.to_nat nops) r with
+    | Some (ops, impl) =>
+      if negb (lenN impl =? nops) then v_bad else
+      let model := shifted_run cap rate (0, 0) now ops in
+      let v := shifted_ok cap rate (cap / rate) 0 0 ops impl in
+      if negb (MIN_COST <=? cap) then v_viol 3
+      else if negb (v =? 0) then v_viol v
+      else if negb (toks_eqb impl model) then v_diff model
+      else v_ok 11
+    | None => v_bad
+    end
+  | _ => v_bad
+  end.
+
 Definition check_C16 (ts : list N) : list N :=
   match ts with
   | 1 :: r => check_bucket r
   | 2 :: r => check_limiter r
   | 3 :: r => check_ratelimit r
   | 4 :: r => check_cookie r
+  | 5 :: r => check_fresh_keys r
+  | 6 :: r => check_shifted r
   | _ => v_bad
   end.
